@@ -24,6 +24,10 @@ def run(run, args):
     rc, o1, e1, _ = run_harness(["brain", "c10", run.seed, n], timeout=900)
     rc2, o2, e2, _ = run_harness(["conv", run.seed, n, 150, 1500], timeout=900)
     rc3, o3, e3, _ = run_harness(["poisson", run.seed, n, "charge"], timeout=900)
+    rc4, o4, e4, _ = run_harness(["brain", "mz", run.seed, n // 2], timeout=900)
+    if rc4:
+        violation(run, {"broken": "harness failed", "detail": e4[-2000:]}, nofail=True)
+    mrecs = read_jsonl(o4)[1:]
     if rc or rc2 or rc3:
         violation(run, {"broken": "harness failed", "detail": (e1 + e2 + e3)[-2000:]}, nofail=True)
     brecs = read_jsonl(o1)[1:]
@@ -48,13 +52,19 @@ def run(run, args):
     tp, ep = eval_shards("C10_p", c15.HEADER, ["QApprox %d %s %d (%d)%%Z %s" % (r["id"], coq_f(r["mass"]), r["n"], r["z"],
                          "None" if r["out"] == "panic" else "(Some %s)" % coq_list(["mkPeak %s %s" % (coq_f(p[0]), coq_f(p[1])) for p in r["out"]]))
                          for r in precs], "qcase", ["qids_where (fun c => negb (q_tie f_tol c)) cases"], shard=30)
-    errors = errors + eb + ec + ep
+    mres, em = eval_shards("C10_mz", HEADER, ["mkMZ %d%%N %s (%d)%%Z %s %s %s %s" % (r["id"], coq_f(r["m"]), r["z"], coq_f(r["carrier"]),
+                           coq_f(r["mcr"]), coq_f(r["inv"]), coq_f(r["nm"])) for r in mrecs], "mzcase",
+                           ["mzids_where (fun c => negb (mz_tie c)) cases", "mzids_where (fun c => negb (mz_holds c)) cases"], shard=120)
+    errors = errors + eb + ec + ep + em
     charges = Counter(src[i][1].get("charge", src[i][1].get("z")) for i in src)
     run.cov.update({"evaluations": len(zitems), "distinct_nontrivial": sum(1 for i in src if src[i][1]["out"] != "panic" and len(src[i][1]["out"]) > 1),
                     "rule": "each of the three generators (coarse: compositions over faithfully read elements with random requests; convolution: small "
                             "compositions with thresholds; Poisson: masses up to 1e7, 1-60 peaks) run at a charge in -8..8 (non-zero) and at charge 0 with the "
                             "same arguments, carriers {proton, sodium, electron, 0}; checked: same length, same intensities, m/z = (m + z*carrier)/|z| of the "
                             "neutral mass (1e-9); non-trivial = more than one peak",
+                    "direct_conversion_calls": {"n": len(mrecs), "rule": "mass_charge_ratio and neutral_mass of mz.rs on random masses (up to 1e6), every "
+                                                "non-zero charge -8..8, carriers {proton, sodium, electron, 0}: both formulas and the round trip (1e-12)",
+                                                "charges": dict(Counter(str(r["z"]) for r in mrecs)), "tie_mismatches": len(mres[0])},
                     "generators": dict(Counter(src[i][0] for i in src)), "charge_histogram": {str(k): v for k, v in sorted(charges.items())},
                     "traces_validated_against_impl": len(zitems) - len(tb[0]) - len(tc[0]) - len(tp[0])})
     run.samples = [{"generator": src[i][0], "charge": src[i][1].get("charge", src[i][1].get("z")), "n_peaks": len(src[i][1]["out"])} for i in list(src)[:3] + list(src)[-3:]]
@@ -62,15 +72,23 @@ def run(run, args):
     run.oblige("correspondence: the three models = implementation on the charged runs", not (tb[0] or tc[0] or tp[0]),
                "coarse %d, convolution %d, poisson %d differ" % (len(tb[0]), len(tc[0]), len(tp[0])))
     run.oblige("charged pattern = neutral pattern with converted m/z, for all three generators", not res[0], "")
+    run.oblige("correspondence: Mz.v = mz.rs bit for bit on the direct conversion calls", not mres[0], "%d differ" % len(mres[0]))
+    run.oblige("neutral_mass inverts mass_charge_ratio, and both are the stated formulas, on every direct call", not mres[1], "%d fail" % len(mres[1]))
     broken = standard_proof_obligations(run, "C10", THEOREMS) if THEOREMS else []
+    if mres[1]:
+        r = {x["id"]: x for x in mrecs}[mres[1][0]]
+        violation(run, {"failing_input": dict(r, function="mass_charge_ratio / neutral_mass"),
+                        "what": "mass_charge_ratio is not (m + z*carrier)/|z|, or neutral_mass is not mz*|z| - z*carrier, or the second does not undo the first",
+                        "all_failing": mres[1][:40]})
     if errors:
         violation(run, {"broken": "case file does not evaluate", "detail": errors[0][1]}, nofail=True)
     if res[0]:
         g, r = src[res[0][0]]
         violation(run, {"failing_input": dict(r, generator=g), "what": "the pattern at charge z is not the neutral pattern with m/z = (m + z*carrier)/|z|",
                         "all_failing": [(src[i][0], src[i][1]["id"]) for i in res[0][:30]]})
-    if tb[0] or tc[0] or tp[0]:
-        violation(run, {"broken": "correspondence model/implementation", "coarse": tb[0][:10], "convolution": tc[0][:10], "poisson": tp[0][:10]}, nofail=True)
+    if tb[0] or tc[0] or tp[0] or mres[0]:
+        violation(run, {"broken": "correspondence model/implementation", "coarse": tb[0][:10], "convolution": tc[0][:10], "poisson": tp[0][:10],
+                        "mz_direct": mres[0][:10]}, nofail=True)
     if broken:
         violation(run, {"broken": broken[0][0], "detail": broken[0][1], "all_broken": [b[0] for b in broken]}, nofail=True)
     run.finish(0)
